@@ -19,6 +19,7 @@ Names are small integers (app 'p.a<k>'), instances 'p.a<k>#%010d'.
 """
 import collections
 import math
+import sys
 from fractions import Fraction
 
 import mock
@@ -104,6 +105,42 @@ def case_ops(case):
 
 def with_ops(case, ops):
     return {'ops': list(ops)}
+
+
+def _published_atomically(callback, children, state, run):
+    """The watch callback runs on kazoo's thread while the main loop evaluates once a second: whatever
+    `reevaluate` may read of `state['scheduled']` at any point of the callback is the complete old map or the
+    complete new one.  The callback is run under a line tracer; the map is looked at before every line of
+    `sproc/appmonitor.py` it executes (each is a point where the other thread may run)."""
+    def snap():
+        m = state.get('scheduled')
+        return None if m is None else {k_: list(v_) for k_, v_ in m.items() if v_}
+    before = snap()
+    seen = []
+
+    def local(frame, event, _arg):
+        if event == 'line':
+            seen.append((frame.f_lineno, snap()))
+        return local
+
+    def tracer(frame, event, _arg):
+        if event == 'call' and frame.f_code.co_filename.endswith('appmonitor.py'):
+            return local
+        return None
+    old = sys.gettrace()
+    sys.settrace(tracer)
+    try:
+        callback(children)
+    finally:
+        sys.settrace(old)
+    after = snap()
+    for lineno, m in seen:
+        if m != before and m != after:
+            run.hits.append(fw.Hit(clause='scheduled-map-torn', call_site='_run_sync._scheduled_watch',
+                                   detail='at line %d the main loop would read %r: neither the map before the '
+                                          'event %r nor the one after it %r' % (lineno, m, before, after)))
+            break
+    run.tags.add('sched-callback-traced')
 
 
 def run_impl(case, pid):
@@ -380,7 +417,7 @@ def run_impl(case, pid):
                 sched_all[app(n)] = [inst(n, i) for i in ids]
                 children = [i_ for l_ in sched_all.values() for i_ in l_]
                 shuffle_rng.shuffle(children)           # ZooKeeper returns children in no particular order
-                sched_watch(children)
+                _published_atomically(sched_watch, children, state, run)
                 run.op('sched %d %s' % (n, ','.join(str(i) for i in sorted(ids)) or '-'), 'ok')
                 n_change += 1
             elif k == 'reconn':
